@@ -105,9 +105,13 @@ type FuncVC struct {
 	funCache    map[string]string
 	stable      []*Loc
 	stableDone  bool
+	cloWrites   []string
+	cloTotal    bool
+	cloWritesDone bool
 	curInstr    ssa.Instruction
 	cellConst   map[*ssa.FreeVar]Term
 	closureOf   map[string]*ssa.Function
+	closureMC   map[string]*ssa.MakeClosure
 	escapes     map[*ssa.Alloc][]ssa.Instruction
 	breach      map[*ssa.BasicBlock]map[*ssa.BasicBlock]bool
 	assignsOpaque bool
@@ -146,7 +150,7 @@ func NewFuncVC(p *Prog, fn *ssa.Function, c *Contract) *FuncVC {
 		loopOf: map[*ssa.BasicBlock]*loopInfo{}, nonNil: map[ssa.Value]bool{}, localAlloc: map[*ssa.Alloc]bool{},
 		debugRefs: map[string][]*ssa.DebugRef{}, typeIDs: map[string]int{}, boxDecl: map[string]bool{},
 		funcDecl: map[string]bool{}, oblSeq: map[string]int{}, abstracted: map[string]int{},
-		assumedUsed: map[string]bool{}, contractUse: map[string]bool{}, iterOf: map[ssa.Value]*iterInfo{}, logicUsed: map[string]bool{}, logTypes: map[string]types.Type{}, axiomDone: map[*Clause]bool{}, skolems: map[string][][]Term{}, funCache: map[string]string{}, escapes: map[*ssa.Alloc][]ssa.Instruction{}, cellConst: map[*ssa.FreeVar]Term{}, closureOf: map[string]*ssa.Function{}}
+		assumedUsed: map[string]bool{}, contractUse: map[string]bool{}, iterOf: map[ssa.Value]*iterInfo{}, logicUsed: map[string]bool{}, logTypes: map[string]types.Type{}, axiomDone: map[*Clause]bool{}, skolems: map[string][][]Term{}, funCache: map[string]string{}, escapes: map[*ssa.Alloc][]ssa.Instruction{}, cellConst: map[*ssa.FreeVar]Term{}, closureOf: map[string]*ssa.Function{}, closureMC: map[string]*ssa.MakeClosure{}}
 	if c != nil {
 		vc.watches = c.Watches
 		vc.bv = c.Mode == "bv"
